@@ -23,7 +23,10 @@ Clause(e) ==
             ELSE ""
        [] cls = "reject" -> IF A # {} THEN "not_rejected" ELSE ""
        [] cls = "either" ->
-            IF A = {} THEN ""
+            \* a width that IS reported is the number of bits Python selects, whether or not the design is later rejected: a rejected
+            \* expression selects nothing and has no width to report, an accepted one selects what Python selects
+            IF e.wq = "ok" /\ e.width # Len(B) THEN "reported_width"
+            ELSE IF A = {} THEN ""
             ELSE IF \E a \in A : a[1] # Len(B) THEN "wrong_width_accepted"
             ELSE IF A # good THEN "bits"
             ELSE IF e.wq = "ok" /\ e.width # Len(B) THEN "reported_width"
